@@ -1,5 +1,6 @@
 import Liquid.Scan
 import Liquid.Value
+import Liquid.Filters.Str
 /-!
 # Line-protocol driver (DESIGN §5.1): one case per line in, one canonical result line out.
 -/
@@ -18,4 +19,7 @@ def runCase (line : String) : String :=
     match GoVal.parse v with
     | some x => x.enc
     | none => "unmodelled parse"
+  | "strf" :: name :: recv :: args => StrF.runStrf name recv args
+  | "strfv" :: name :: recv :: args => StrF.runStrfv name recv args
+  | ["strfsj", recv, sep] => StrF.runStrfsj recv sep
   | _ => "bad-op"
